@@ -812,6 +812,21 @@ def c13(v):
                 hc = [x for c in v.children[who] for x in v.hcancel.get(c, []) if p0 < x[0] < p]
                 if e[4] is not (not hc):
                     V.append("C13 co_shutdown() of %s returned %s although %d handlers had to be cancelled" % (who, e[4], len(hc)))
+                # handlers are cancelled when shutdown_timeout has elapsed, not before (the call itself was not cancelled:
+                # it returned)
+                early = [x for x in hc if sdT is None or x[1] < t0 + sdT]
+                if early:
+                    V.append("C13 co_shutdown() of %s cancelled a pending handler at t=%d, before its shutdown_timeout (%s) had elapsed since t=%d"
+                             % (who, early[0][1], sdT, t0))
+                if e[4] is True:
+                    # ... and True means that every handler it launched has ended by now
+                    for c in v.children[who]:
+                        if v.info[c]["kind"] != "job":
+                            continue
+                        began = [x for x in v.sdb.get(c, []) if p0 < x[0] < p]
+                        ended = [q for q, x in enumerate(v.log) if p0 < q < p and x[2] in ("sde", "sdc") and x[3] == c]
+                        if began and not ended:
+                            V.append("C13 co_shutdown() of %s returned True while the handler of %s was still pending" % (who, c))
     # a later explicit shutdown sends nothing more
     if v.lingered is not None:
         for e in v.log[v.lingered:]:
